@@ -107,9 +107,8 @@ def decodeCursor (j : J) : Except String DecodedCursor :=
       let reverse ← decBool (j.get "reverse")
       .ok (.column { pageSize, order, bottom, paginationID, reverse, rest := { column, filters } })
     | _ => .error "type"
-  -- `json.Unmarshal("null", &q)` leaves the interface nil; the unchecked type
-  -- assertion `q.(*ColumnPaginatedQuery)` that follows panics
-  | .null => .error "panic: null cursor"
+  -- `json.Unmarshal("null", &q)` leaves the interface nil: "invalid cursor" (fix
+  -- 2262951; the unchecked type assertion used to panic)
   | _ => .error "type"
 
 end Ledger.Query
